@@ -975,3 +975,166 @@ func helperPropagates(p *Prog, h *Fn, step string) bool {
 	}
 	return true
 }
+
+// ---- C12-h: order-dependent elimination over a map runs to a fixpoint ----
+
+func init() {
+	register("C12",
+		"C12-h (AST, typed): a range over a map whose body deletes keys from that same map depending on whether OTHER keys are (still) in it computes something that depends on Go's randomised iteration order unless it is repeated until nothing changes. For every such loop in packages manager and query (FLOW) the range expression is reached again from each deletion without the map being replaced in between (the fixpoint iteration). In manager.New this is the acyclicity check of restored tags: a single pass rejects a valid state file — all tags, converters, webhooks and endpoints of the last session — whenever a tag happens to be visited before a tag it references.",
+		func(p *Prog, r *Res) {
+			const rule = "C12-h map-elimination-runs-to-fixpoint"
+			r.Rule(rule + ": order-dependent deletions from a map being ranged over are iterated to a fixpoint")
+			n := 0
+			for _, f := range p.FnList {
+				if (f.Short != "manager" && f.Short != "query") || f.Body() == nil {
+					continue
+				}
+				info := f.Pkg.TypesInfo
+				inspectParents(f.Body(), func(x ast.Node, parents []ast.Node) bool {
+					rs, ok := x.(*ast.RangeStmt)
+					if !ok {
+						return true
+					}
+					if _, isMap := info.TypeOf(rs.X).Underlying().(*types.Map); !isMap {
+						return true
+					}
+					mStr := exprString(p.Fset, rs.X)
+					key := identObj(info, rs.Key)
+					deletes, testsOther := false, false
+					ast.Inspect(rs.Body, func(y ast.Node) bool {
+						switch s := y.(type) {
+						case *ast.FuncLit:
+							return false
+						case *ast.CallExpr:
+							if isBuiltin(info, s, "delete") && len(s.Args) == 2 && exprString(p.Fset, s.Args[0]) == mStr {
+								deletes = true
+							}
+						case *ast.IndexExpr:
+							if exprString(p.Fset, s.X) == mStr && (key == nil || !sameObj(info, s.Index, key)) {
+								testsOther = true
+							}
+						}
+						return true
+					})
+					if !deletes || !testsOther {
+						return true
+					}
+					n++
+					// the pass is repeated: after every deletion the range expression is evaluated again (the enclosing loop comes
+					// round) without the map having been replaced in between
+					_ = parents
+					fl := p.Flow(f)
+					enclosed := true
+					isRangeX := func(nd ast.Node) bool { return nd == ast.Node(rs.X) }
+					replaces := func(nd ast.Node) bool {
+						as, ok := nd.(*ast.AssignStmt)
+						if !ok {
+							return false
+						}
+						for _, l := range as.Lhs {
+							if exprString(p.Fset, l) == mStr {
+								return true
+							}
+						}
+						return false
+					}
+					nDel := 0
+					leftAt := ""
+					for _, pt := range fl.Find(func(nd ast.Node) bool {
+						if nd.Pos() < rs.Body.Pos() || nd.End() > rs.Body.End() {
+							return false
+						}
+						return fl.hasCall(nd, func(c *ast.CallExpr) bool {
+							return isBuiltin(info, c, "delete") && len(c.Args) == 2 && exprString(p.Fset, c.Args[0]) == mStr
+						})
+					}) {
+						nDel++
+						if !fl.Reach([]Pt{After(pt)}, isRangeX, replaces).Found {
+							enclosed = false
+							continue
+						}
+						// … and on every path: from the deletion (the straight-line code it belongs to) the repeating loop is not left
+						// without either starting the pass again or setting a variable its condition reads (the `changed` flag form)
+						var region *ast.ForStmt
+						for _, par := range parents {
+							if fs, ok := par.(*ast.ForStmt); ok {
+								region = fs
+							}
+						}
+						if region == nil {
+							enclosed = false
+							continue
+						}
+						flags := map[types.Object]bool{}
+						condReadsMap := false
+						if region.Cond != nil {
+							ast.Inspect(region.Cond, func(y ast.Node) bool {
+								if e, ok := y.(ast.Expr); ok && exprString(p.Fset, e) == mStr {
+									condReadsMap = true
+								}
+								return true
+							})
+						}
+						if condReadsMap {
+							continue // `for len(m) != 0 { … }`: the deletion itself is what the repeating loop's condition reads
+						}
+						if region.Cond != nil {
+							ast.Inspect(region.Cond, func(y ast.Node) bool {
+								if id, ok := y.(*ast.Ident); ok {
+									if o, ok := info.Uses[id].(*types.Var); ok {
+										flags[o] = true
+									}
+								}
+								return true
+							})
+						}
+						pass := func(nd ast.Node) bool {
+							if isRangeX(nd) {
+								return true
+							}
+							if nd.Pos() < rs.Body.Pos() || nd.End() > rs.Body.End() {
+								return false // the loop's own counter (init/post) is no sign of progress
+							}
+							if as, ok := nd.(*ast.AssignStmt); ok {
+								for _, l := range as.Lhs {
+									if o := identObj(info, l); o != nil && flags[o] {
+										return true
+									}
+								}
+							}
+							if ids, ok := nd.(*ast.IncDecStmt); ok {
+								if o := identObj(info, ids.X); o != nil && flags[o] {
+									return true
+								}
+							}
+							return false
+						}
+						start := Pt{pt.B, 0}
+						flagSetBefore := false
+						for i := 0; i < pt.I; i++ {
+							if pass(pt.B.Nodes[i]) {
+								flagSetBefore = true // `changed = true; delete(m, k)`: same straight-line code
+							}
+						}
+						if flagSetBefore {
+							continue
+						}
+						leaves := func(nd ast.Node) bool {
+							return isReturn(nd) || nd.Pos() < region.Pos() || nd.End() > region.End()
+						}
+						if res := fl.Reach([]Pt{start}, leaves, pass); res.Found {
+							enclosed = false
+							leftAt = fl.traceString(res)
+						}
+					}
+					if nDel == 0 {
+						enclosed = false
+					}
+					k := fmt.Sprintf("%s elimination over %s", f.Key(), mStr)
+					r.Check(enclosed, rule, k, p.Pos(rs), "after each deletion the pass over the map is started again", "keys are deleted from "+mStr+" depending on the presence of other keys, and the pass is not started again after every deletion "+leftAt+": the outcome depends on the randomised iteration order (an entry visited before the entries it depends on is wrongly kept)")
+					return true
+				})
+			}
+			r.Floor(rule, 1, n)
+		})
+}
